@@ -163,10 +163,11 @@ CHECKS["C12"] = {
     "text": "polydiv returns Err for the empty and the all-zero divisor before anything else; its only loop increments a counter at the top level of the body and returns Err "
             "past a constant cap (no continue), and every reachable callee loop is bounded with an acyclic call graph (never spins); the quotient term has length deg r - deg v + 1 "
             "with lead(r)/lead(v) at index deg r - deg v; one iteration does q <- q + t and r <- r - t*v with the same t and v (so u = q*v + r is a loop invariant in exact "
-            "arithmetic); the loop exits on r = 0 or deg r < deg v and returns Ok((q, r)).",
-    "design_ref": "DESIGN.md §3 C12",
-    "note": "Whether the loop ends through its condition rather than the cap for EVERY f64 input depends on exact cancellation of leading coefficients — a floating-point value question, not decided; no failing input could be exhibited.",
-    "technique": TECH + "dominating Err guards, counter-capped loop shape + call-graph termination, term/update pairing patterns",
+            "arithmetic); the cancelled leading coefficient of r is cleared explicitly (absorption test) so that progress does not rely on an exactly-zero rounding residue "
+            "(the genuine defect this rule found: [1,1,1]/[49] returned Err); the loop exits on r = 0 or deg r < deg v and returns Ok((q, r)).",
+    "design_ref": "DESIGN.md §3 C12, §4 no. 7",
+    "note": "The size of the rounding error in q and r is not decided; nor is the astronomically unlikely chain of one-ulp residues that could still reach the cap.",
+    "technique": TECH + "dominating Err guards, counter-capped loop shape + call-graph termination, term/update pairing, value-independent degree decrease",
 }
 
 CHECKS["C14"] = {
